@@ -68,6 +68,8 @@ served as the regression test):
 | C15-r72 | C15 | an up-front length check in `SetUniformBytes` with `>=` for `>`: 64-byte uniform strings panic; the rule compared values on returning paths only | `C15-3/SetUniformBytes/lengths`: for every length 32..64 (what `SetWideBytes` reduces, C01) the call returns and no panic is reachable |
 | C20-r72 | C20 | default entropy taken from a package-level `bufio.Reader`: the write to shared state happens inside `io.ReadFull`, whose reader argument was summarised as read-only | a reader's state is memory: `io.ReadFull` writes its reader (user-supplied readers stay the caller's responsibility in rule 2; a package-level one is shared state) |
 | C08-r81, C09-r82, C11-r81, C11-r82 | C08, C09, C11 | `Verify` refusing hashes that are not linked in; `Sign` refusing the RFC 6979 selector for digests other than 32 bytes; the recoverable parser masking the id byte; `Verify` no longer comparing the recovered key - each breaks a clause the property states ("verifies ... in every encoding", "for every key and digest", "ids outside [0,3] are errors", "no other id does") that only C07 / C08 / C12 decided | C08 runs `C07-3` (Verify's options and encodings), C09 runs `C08-3` (Sign hands every admissible digest and the reader on), C11 runs `C12-2` and `C07-3`; `crypto.Hash.Available` is an opaque boolean that shows up in any accept set depending on it |
+| C04-r91 | C04 | a range assertion on the GLV halves with a mis-transcribed bound: the split panics for the scalars whose half sits at its extreme; the value rules compared returning paths only | `C04-3/splitGLV/total`: no panic may be reachable in the scalar split (an assertion whose bound cannot be decided is reported as undecided - fail-closed) |
+| C18-r92 | C18 | `Point.Equal` returns 1 for `v == p` before asserting validity: the zero value is accepted when it is both operands; rule 1b cleared one operand's flag at a time with distinct objects | `C18-1b/.../all-aliased`: every exported function with two or more Point operands is run with one uninitialised object as every operand (receiver included) and must not return |
 | C19-r22 | C19 (after the relevance filter was added) | reachability was computed in the amd64 configuration only; the portable lookup is the only caller that passes non-0/1 values to `Uint64Equal` | relevance is the union over every loaded build configuration |
 ''')
 s = open('/verif/DESIGN.md').read()
